@@ -392,17 +392,24 @@ def check_siminput(case_sim, inp, tbname, style, out):
 def build_sim(ctx, case_sim, style):
     hs = ctx.hs
     attrs, keys = case_sim["attrs"], case_sim["keys"]
+    share = {j: i for i, j in case_sim.get("share", [])}  # attribute j is the very object that is attribute i
+
+    def objects():
+        objs = []
+        for k, a in enumerate(attrs):
+            objs.append(objs[share[k]] if k in share else ctx.attr(a))
+        return objs
     if style == "list":
-        return hs.Sim(tb=ctx.tb, attrs=[ctx.attr(a) for a in attrs])
+        return hs.Sim(tb=ctx.tb, attrs=objects())
     if style == "named":
         return hs.Sim(tb=ctx.tb, attrs=[ctx.attr(a, name_override=(k if a["t"] not in ("save", "literal") else None)) for a, k in zip(attrs, keys)])
     if style == "methods":
         s = hs.Sim(tb=ctx.tb)
         grow = case_sim.get("grow", 0) if ctx.tbspec.get("kind") == "ok" else 0
-        for k, a in enumerate(attrs):
+        for k, o in enumerate(objects()):
             if grow and k == len(attrs) - grow:
                 hs.to_proto(s)  # history: the Sim was exported once before its last `grow` attributes were added
-            s.add(ctx.attr(a))
+            s.add(o)
         return s
     if style == "class":
         body = {"tb": ctx.tb}
@@ -572,6 +579,13 @@ def strategies():
         lead = draw(st.lists(st.sampled_from(["", "", "", "_", "__"]), min_size=len(attrs), max_size=len(attrs)))
         keys = ["%sk%d_%s" % (u, i, a["t"]) for i, (a, u) in enumerate(zip(attrs, lead))]
         d_ = {"tb": {"name": tbname, "kind": tbkind}, "attrs": attrs, "keys": keys}
+        ans = [i for i, a in enumerate(attrs) if a["t"] in ANALYSES]
+        if ans and len(attrs) < 8 and draw(st.integers(0, 4)) == 0:
+            # one analysis object is listed twice (styles that take objects: list, add-methods): two entries, alike
+            i = draw(st.sampled_from(ans))
+            attrs.append(json.loads(json.dumps(attrs[i])))
+            keys.append("k%d_%s" % (len(attrs) - 1, attrs[i]["t"]))
+            d_["share"] = [[i, len(attrs) - 1]]
         if len(attrs) >= 2 and draw(st.integers(0, 3)) == 0:
             d_["grow"] = draw(st.integers(1, len(attrs) - 1))  # add-method style: exported once before the last `grow` attributes are added
         return d_
@@ -588,6 +602,8 @@ def strategies():
                 name = "Tb%d" % k
             sims.append(draw(sim_desc(name, kind)))
         styles = draw(st.sampled_from([["list", "methods"], ["class", "named"], ["list", "methods", "class", "named"]]))
+        if any(s_.get("share") for s_ in sims):
+            styles = ["list", "methods"]
         return {"sims": sims, "styles": styles, "as_list": draw(st.booleans())}
 
     return cases()
